@@ -9,6 +9,7 @@ Theorem run_from_init_spike_attr : forall (c : cls) (p : params RN),
   ctor_ok RN c p = true ->
   0 < refrac_t RN p ->
   forall (n b : nat) (ops : list (op RN)),
+  Forall (op_bounded p) ops ->
   Forall
     (fun r : option (list (list bool)) * nstate RN =>
      match fst r with
